@@ -84,6 +84,7 @@ def step_calls(st: SeqState, targets, depth_idx, target_senders, excluded_sender
                 s2 = e.state
                 accounts = {ad: refevm.Account(acc.code, acc.storage, refevm.empty_storage()) for ad, acc in s2.accounts.items()}
                 env = {k: v for k, v in s2.env.items() if k in ("timestamp", "number", "basefee", "chainid", "coinbase", "difficulty")}
+                env["address_oracle"] = list(st.env.get("address_oracle", []))[len(s2.created):]
                 # time passes between transactions: a fresh non-decreasing 64-bit timestamp
                 old_ts = env.get("timestamp", oracle.BLOCK["timestamp"])
                 tsc = z3.BitVec(f"ts{depth_idx}_{len(nxt)}", 64)
@@ -134,8 +135,27 @@ class InvTruth:
     min_depth: int | None = None
 
 
-def ground_truth(state, targets, inv_sig, depth, target_senders=(), excluded_senders=(), cap=20.0, max_states=400, pins=None) -> InvTruth:
+def dynamic_targets(st: SeqState, specs, allowed=None, banned=None):
+    """Foundry without targetContract filters: every deployed contract except the test contract is a target, including
+    contracts deployed by earlier target calls.  `specs` tells which functions a deployed runtime code offers."""
+    out = []
+    by_code = {sp.runtime(): sp for sp in specs}
+    for addr, acc in sorted(st.accounts.items()):
+        if addr == oracle.TEST or not acc.code:
+            continue
+        sp = by_code.get(bytes(acc.code))
+        if sp is None:
+            continue
+        sigs = [x for x in sp.sigs() if (allowed is None or x in allowed) and not (banned and x in banned)]
+        out.append(Target(addr, sp, sigs))
+    return out
+
+
+def ground_truth(state, targets, inv_sig, depth, target_senders=(), excluded_senders=(), cap=20.0, max_states=400, pins=None,
+                 specs=None, address_oracle=()) -> InvTruth:
     accounts, bal, env = state
+    env = dict(env)
+    env.setdefault("address_oracle", list(address_oracle))
     tr = InvTruth("safe")
     level = [SeqState(accounts, bal, dict(env), [], [], [])]
     unknown = []
@@ -155,7 +175,8 @@ def ground_truth(state, targets, inv_sig, depth, target_senders=(), excluded_sen
             break
         nxt_level = []
         for st in level:
-            nxt, inner, unk = step_calls(st, targets, d, target_senders, excluded_senders, pins=pins)
+            tg_now = dynamic_targets(st, specs) if specs is not None else targets
+            nxt, inner, unk = step_calls(st, tg_now, d, target_senders, excluded_senders, pins=pins)
             unknown += unk
             for fs, _ in inner:
                 res = portfolio.solve(list(fs.rc) + list(fs.assumptions), timeout=cap, model_consts=fs.consts)
